@@ -1,5 +1,5 @@
 (* C07 — tainted nodes are reused before new capacity is bought.  Theorems only. *)
-From Esc Require Import Examples proofs.ScanTaint proofs.ScanState proofs.ScanRun proofs.ScanRunTheorems.
+From Esc Require Import Examples proofs.ScanTaint proofs.ScanExact proofs.ScanState proofs.ScanRun proofs.ScanRunTheorems.
 
 (* for every scan outside dry mode (node names of the view distinct): the nodes whose untaint is attempted are
    visited newest-created first, and if the journal contains a cloud increase then, before it, EVERY tainted node of
@@ -11,6 +11,19 @@ Theorem c07_reuse_first : forall now gdry api g a nodes pods,
   check_C07_group x (r_calls (scan_of now gdry api g a nodes pods)) = true.
 Proof. exact group_passes_C07. Qed.
 Print Assumptions c07_reuse_first.
+
+(* the exact remainder, for every scan outside dry mode: if the journal contains a cloud increase then the scan needed
+   N more nodes (need_of: min - untainted below the minimum, otherwise the decided delta after the triggers), and the
+   FIRST increase call asks for add = clamp(N - U) > 0 where U counts the tainted nodes untainted before it (accepted
+   untaint writes plus successful read-backs whose API copy carried no escalator taint) and the clamp is against
+   min(max_nodes, the cloud group's maximum) from the desired size d = (desired at the start of the scan) - (the scan's
+   own accepted terminations before the call): SetDesiredCapacity(d + add), or a fleet request of total add *)
+Theorem c07_exact_remainder : forall now gdry api g a nodes pods,
+  let x := ctx_of now gdry api g a nodes pods in
+  NoDup (map n_name (x_nodes x)) ->
+  check_C07_exact x (r_calls (scan_of now gdry api g a nodes pods)) = true.
+Proof. exact group_passes_C07_exact. Qed.
+Print Assumptions c07_exact_remainder.
 
 (* the remainder: what is asked of the cloud is the clamp of (N - successful untaints) on top of the provider's
    current cached desired size, which follows the same scan's accepted terminations (F6 repair): every
@@ -39,8 +52,26 @@ Example c07_ex :
   /\ filter is_cloud_increase (r_calls (ex_scan ex_opts gstate0 24000)) = [CA (ASetDesired 103 10 false true)].
 Proof. vm_compute. split; reflexivity. Qed.
 
+(* non-vacuity of the exact remainder on the same scan: 7 nodes are needed, the 3 reusable tainted nodes are untainted,
+   one force-tainted node is removed first (desired 7 -> 6), and the cloud is asked for the remaining 4: 6 + 4 = 10 *)
+Example c07_exact_ex :
+  need_of (ex_ctx ex_opts gstate0 24000) = Some 7
+  /\ counted_untainted (ex_ctx ex_opts gstate0 24000) (calls_before_increase (r_calls (ex_scan ex_opts gstate0 24000))) = 3
+  /\ untaint_ok_targets (ex_ctx ex_opts gstate0 24000) (r_calls (ex_scan ex_opts gstate0 24000)) = [202; 205; 206]
+  /\ ok_terminations (calls_before_increase (r_calls (ex_scan ex_opts gstate0 24000))) = 1
+  /\ first_increase (r_calls (ex_scan ex_opts gstate0 24000)) = Some (ASetDesired 103 10 false true)
+  /\ check_C07_exact (ex_ctx ex_opts gstate0 24000) (r_calls (ex_scan ex_opts gstate0 24000)) = true
+  (* and the checker rejects the same journal with the request off by one *)
+  /\ check_C07_exact (ex_ctx ex_opts gstate0 24000)
+       (map (fun c => match c with CA (ASetDesired g v h ok) => CA (ASetDesired g (v - 1) h ok) | _ => c end) (r_calls (ex_scan ex_opts gstate0 24000))) = false.
+Proof. vm_compute. repeat split; reflexivity. Qed.
+
 (* over a whole RunOnce: the checker evaluated by the correspondence holds of every group journal the model produces
    (group names and cloud group names pairwise distinct) *)
 Theorem c07_run_once : forall s, wf_groups s -> wf_snapshot s = true -> for_groups check_C07_group s (run_journals s) = true.
 Proof. exact run_passes_C07. Qed.
 Print Assumptions c07_run_once.
+
+Theorem c07_exact_run_once : forall s, wf_groups s -> wf_snapshot s = true -> for_groups check_C07_exact s (run_journals s) = true.
+Proof. exact run_passes_C07_exact. Qed.
+Print Assumptions c07_exact_run_once.
